@@ -22,6 +22,12 @@ def budgets():
                 out.append("| %s | %s (%s) | %s | %s | %s | %s |" % (pid, u["name"], u["pkg"].replace("pkg/", ""), t["run"], q, th, ", ".join(notes)))
     return "\n".join(out)
 
+MISSED_AT_FIRST = set("""C13-9 C20-8 C06-7 C06-8 C14-7 C14-8 C01-8 C01-9 C11-9 C12-7 C12-9 C09-7 C05-8 C17-7 C17-8 C07-7 C07-8 C07-9 C16-7 C16-8 C02-8 C19-8 C19-9
+C20-10 C20-11 C04-12 C03-12 C10-11 C10-12 C08-12 C02-11 C16-11 C16-12 C11-11 C09-11 C12-10 C17-10 C17-11 C07-10 C07-11 C01-12 C06-10 C06-11 C19-10 C19-11 C19-12
+C09-13 C05-15 C11-14 C04-13 C04-14 C08-14 C12-13 C12-14 C03-15 C17-13 C17-15 C18-14 C07-13 C07-15 C01-15 C06-13 C06-14 C06-15 C19-14 C19-15
+C13-16 C18-16 C18-17 C08-18 C15-18 C11-16 C04-17 C17-16 C17-17 C19-16 C19-17 C19-18 C07-17 C06-16 C06-18 C03-16 C03-17 C05-16""".split())
+
+
 def seeded():
     out = ["| seeded change | property | what was changed | needs | detected by (signature) | note |", "|---|---|---|---|---|---|"]
     for d in sorted(glob.glob(os.path.join(V, "seeded", "*"))):
@@ -33,8 +39,28 @@ def seeded():
         def cell(x, n=220):
             x = re.sub(r"\s+", " ", str(x or "")).replace("|", "/")
             return x[:n] + ("…" if len(x) > n else "")
-        det = ", ".join(cc.get("signatures") or []) if cc.get("detected") else "NOT DETECTED"
-        out.append("| %s | %s | %s | %s | %s | %s |" % (os.path.basename(d), m.get("property"), cell(m.get("summary")), cell(m.get("needs"), 160), cell(det, 160), cell(cc.get("note"), 200)))
+        fe = m.get("final_evaluation") or {}
+        sigs = fe.get("signatures") or cc.get("signatures") or []
+        if fe.get("in_scope") is False:
+            det = "not chased: outside the property (see meta.json)"
+        elif fe.get("detected") is None and fe.get("note"):
+            det = "no longer applicable: " + fe["note"].split(":")[0]
+        elif fe.get("detected") or (not fe and cc.get("detected")):
+            det = ", ".join(sigs)
+        else:
+            det = "NOT DETECTED"
+        name = os.path.basename(d)
+        k = int(name.split("-")[1])
+        wave = (k - 1) // 3 + 1
+        note = cc.get("note") or ""
+        if wave >= 3:
+            note = "wave %d: %s" % (wave, "missed at first, caught after the extension of §4.0" if name in MISSED_AT_FIRST else
+                                    ("judged outside the property" if fe.get("in_scope") is False else "caught by the check as it stood"))
+        elif not note.startswith(("wave", "missed", "caught", "re-introduces", "superseded", "neutralised")):
+            note = "wave %d: %s" % (wave, note)
+        if m.get("rebased"):
+            note += "; patch rebased onto fix %s" % m["rebased"].get("onto")
+        out.append("| %s | %s | %s | %s | %s | %s |" % (name, m.get("property"), cell(m.get("summary")), cell(m.get("needs"), 160), cell(det, 160), cell(note, 200)))
     return "\n".join(out)
 
 p = os.path.join(V, "DESIGN.md")
